@@ -513,7 +513,7 @@ def gen(seed, family=None, knobs=None):
             probs[0] = 1.0
         tot = sum(probs)
         probs = [p / tot for p in probs]
-        probs[-1] = 1.0 - sum(probs[:-1])
+        probs[-1] = max(0.0, 1.0 - sum(probs[:-1]))  # never a (rounding-sized) negative value: that would not be a well-formed table
         g = {"ref": f"green_{c}", "team": "GREEN", "type": "probabilistic-agent",
              "agent_settings": {"action_probabilities": {i: p for i, p in enumerate(probs)}},
              "action_space": {"action_map": {i: {"action": a, "options": o} for i, (a, o) in enumerate(am)}},
